@@ -1,5 +1,74 @@
 import Pun.Props.C17
 import Pun.Gen.KSGen
+/-!
+# C17, generated part: the constants of `d_alpha` *as the source has them now*
+
+`Pun/Gen/KSGen.lean` is regenerated from `pba/pbox_free.py` on every run (table, `0.16693`, what a level outside the
+table gets, numeric brackets of `c_α = √(ln(1/α)/2)` for the table keys).  Here:
+* the extracted constants equal the hand model the driver executes (`gen_consts_eq`) — in particular a level outside the
+  table raises (`dflt = none`);
+* the extracted table passes the certificate `tableOK` (`gen_certified`), hence `D > 0`, `D` decreasing in `n`, `D`
+  decreasing in `alpha` for every `n ≥ 1`, for every value of `c_α` inside its bracket, over every ordered field.
+-/
+set_option linter.unusedSimpArgs false
+set_option linter.unusedVariables false
 namespace Pun.Gen.KS
+open Pun.KS
+
 theorem gen_consts_eq : c1 = Pun.KS.c1 ∧ table = Pun.KS.table ∧ dflt = Pun.KS.dflt := by decide +kernel
+
+/-- every row of the extracted table got a bracket and the whole table passes the certificate -/
+def certified : Bool :=
+  match entries table cBounds with
+  | some es => tableOK c1 es && decide ((es.map fun e => (e.key, e.A)) = table)
+  | none => false
+
+theorem gen_certified : certified = true := by decide +kernel
+
+theorem gen_entries : ∃ es, entries table cBounds = some es ∧ tableOK c1 es = true ∧
+    (es.map fun e => (e.key, e.A)) = table := by
+  have h := gen_certified
+  unfold certified at h
+  cases he : entries table cBounds with
+  | none => rw [he] at h; exact absurd h (by simp)
+  | some es =>
+    rw [he] at h
+    simp only [Bool.and_eq_true, decide_eq_true_eq] at h
+    exact ⟨es, rfl, h.1, h.2⟩
+
+variable {K : Type*} [Field K] [LinearOrder K] [IsStrictOrderedRing K]
+
+/-- ★ `D_pos_mono` for the constants in the source: positive for every `n ≥ 1` (`t = 1/√n ∈ (0,1]`) -/
+theorem gen_D_pos {es : List Entry} (h : entries table cBounds = some es) {e : Entry} (he : e ∈ es)
+    {c t : K} (hc : (e.lo : K) ≤ c) (ht : 0 < t) (ht1 : t ≤ 1) : 0 < Dpoly c (c1 : K) (e.A : K) t := by
+  obtain ⟨es', h', hok, _⟩ := gen_entries
+  rw [h] at h'; cases h'
+  exact D_pos_of_tableOK hok he hc ht ht1
+
+/-- ★ decreasing in the sample size -/
+theorem gen_D_decreasing_n {es : List Entry} (h : entries table cBounds = some es) {e : Entry} (he : e ∈ es)
+    {c : K} (hc : (e.lo : K) ≤ c) {n m : ℕ} (hn : 0 < n) (hnm : n < m) {tn tm : K} (htn : 0 < tn) (htm : 0 < tm)
+    (hn' : (n : K) * tn ^ 2 = 1) (hm' : (m : K) * tm ^ 2 = 1) :
+    Dpoly c (c1 : K) (e.A : K) tm < Dpoly c (c1 : K) (e.A : K) tn := by
+  obtain ⟨es', h', hok, _⟩ := gen_entries
+  rw [h] at h'; cases h'
+  exact D_decreasing_n_of_tableOK hok he hc hn hnm htn htm hn' hm'
+
+/-- ★ decreasing in the level -/
+theorem gen_D_decreasing_alpha {es : List Entry} (h : entries table cBounds = some es) {e e' : Entry}
+    (he : e ∈ es) (he' : e' ∈ es) (hk : e.key < e'.key) {c c' t : K} (hc : (e.lo : K) ≤ c)
+    (hc' : c' ≤ (e'.hi : K)) (ht : 0 < t) (ht1 : t ≤ 1) :
+    Dpoly c' (c1 : K) (e'.A : K) t < Dpoly c (c1 : K) (e.A : K) t := by
+  obtain ⟨es', h', hok, _⟩ := gen_entries
+  rw [h] at h'; cases h'
+  exact D_decreasing_alpha_of_tableOK hok he he' hk hc hc' ht ht1
+
+/-- ★ `unsupported_alpha_rejected` for the constants in the source -/
+theorem gen_unsupported_rejected {α : ℚ} (h : lookup table α = none) (n : ℕ) (r1 r2 : ℚ) :
+    dAlphaWith c1 table dflt n α r1 r2 = .error .Value := by
+  obtain ⟨h1, h2, h3⟩ := gen_consts_eq
+  rw [h1, h2, h3]
+  rw [h2] at h
+  exact unsupported_alpha_rejected h n r1 r2
+
 end Pun.Gen.KS
